@@ -113,6 +113,21 @@ Fixpoint run_steps (s : pstate) (steps : list pstep) (i : N) (acc : list (pstate
 Definition run_case (c : pcase) :=
   run_steps (init_state (p_geo c) (p_fast c) (p_ext c) (bm_of_bytes (p_my c))) (p_steps c) 0 [].
 
+(* the first step the model could not follow, with the model state it was taken in: the
+   send-time clauses of the monitors still apply to what the implementation wrote there *)
+Fixpoint first_unmatched (s : pstate) (steps : list pstep) : option (pstate * pstep) :=
+  match steps with
+  | [] => None
+  | o :: rest =>
+    let extra := match st_op o with OpEv (PeerRequest cs) => length cs | _ => O end in
+    match find_k (kmax s + extra) 0 s o with
+    | None => Some (s, o)
+    | Some r => first_unmatched (a_st (fst r)) rest
+    end
+  end.
+Definition unmatched (c : pcase) : option (pstate * pstep) :=
+  first_unmatched (init_state (p_geo c) (p_fast c) (p_ext c) (bm_of_bytes (p_my c))) (p_steps c).
+
 Definition corr_peer (c : pcase) : bool := match fst (run_case c) with None => true | Some _ => false end.
 Definition bad_corr_peer (cs : list pcase) : list N := map p_id (filter (fun c => negb (corr_peer c)) cs).
 Definition bad_corr_steps (cs : list pcase) : list (N * N) :=
@@ -207,9 +222,7 @@ Fixpoint nodupN (l : list N) : bool :=
 Definition count_requests (ms : list msg) : N :=
   llen (filter (fun m => match m with Request _ _ _ => true | _ => false end) ms).
 
-Definition mon11_step (x : pstate * res * pstep) : bool :=
-  let '(s, r, o) := x in
-  let s' := a_st (fst r) in
+Definition mon11_sent (s : pstate) (o : pstep) : bool :=
   forallb (fun m =>
     match m with
     | Request i b l =>
@@ -221,10 +234,6 @@ Definition mon11_step (x : pstate * res * pstep) : bool :=
     | ExtendedDontHave _ i => match s_geo s with Some g => i <? num_pieces g | None => false end
     | _ => true
     end) (st_msgs o) &&
-  (* outstanding requests stay distinct, and a step that sends requests respects the queue depth *)
-  nodupN (map fst (rq_requested (s_reqs s')) ++ rq_queue (s_reqs s')) &&
-  ((count_requests (st_msgs o) =? 0) || (nreq s' <=? N.max 2 (s_reqq s'))) &&
-  (* PEX deltas: never add an address already announced, never drop one not announced *)
   forallb (fun m =>
     match m with
     | ExtendedPex _ added dropped =>
@@ -232,6 +241,14 @@ Definition mon11_step (x : pstate * res * pstep) : bool :=
         forallb (fun p => pfind p (px_pending_del (s_pexst s))) dropped
     | _ => true
     end) (st_msgs o).
+
+Definition mon11_step (x : pstate * res * pstep) : bool :=
+  let '(s, r, o) := x in
+  let s' := a_st (fst r) in
+  mon11_sent s o &&
+  (* outstanding requests stay distinct, and a step that sends requests respects the queue depth *)
+  nodupN (map fst (rq_requested (s_reqs s')) ++ rq_queue (s_reqs s')) &&
+  ((count_requests (st_msgs o) =? 0) || (nreq s' <=? N.max 2 (s_reqq s'))).
 
 (* scheduler commands outside the torrent are the harness's own hostile inputs: the
    monitor is only meaningful for histories whose commands name existing blocks *)
@@ -242,14 +259,14 @@ Definition commands_in_range (c : pcase) : bool :=
     | _ => true
     end) (p_steps c).
 
-Definition monitor11 (c : pcase) : bool := forallb mon11_step (snd (run_case c)).
+Definition monitor11 (c : pcase) : bool :=
+  forallb mon11_step (snd (run_case c)) &&
+  match unmatched c with Some (s, o) => mon11_sent s o | None => true end.
 Definition bad_monitor11 (cs : list pcase) : list N := map p_id (filter (fun c => negb (monitor11 c)) cs).
 
 (* ---------- C16 monitor: upload and choking discipline ---------- *)
 
-Definition mon16_step (x : pstate * res * pstep) : bool :=
-  let '(s, r, o) := x in
-  let s' := a_st (fst r) in
+Definition mon16_sent (s : pstate) (o : pstep) : bool :=
   forallb (fun m =>
     match m with
     | Piece i b d =>
@@ -260,11 +277,18 @@ Definition mon16_step (x : pstate * res * pstep) : bool :=
         | [] => false
         end
     | _ => true
-    end) (st_msgs o) &&
+    end) (st_msgs o).
+
+Definition mon16_step (x : pstate * res * pstep) : bool :=
+  let '(s, r, o) := x in
+  let s' := a_st (fst r) in
+  mon16_sent s o &&
   (* nothing stays queued for a peer we are choking; queue bounded; counter in step with the flag *)
   (s_am_unchoking s' || match s_requested s' with [] => true | _ => false end) &&
   (llen (s_requested s') <=? upload_queue_max) &&
   (s_counter s' =? (if s_am_unchoking s' then 1 else 0))%Z.
 
-Definition monitor16 (c : pcase) : bool := forallb mon16_step (snd (run_case c)).
+Definition monitor16 (c : pcase) : bool :=
+  forallb mon16_step (snd (run_case c)) &&
+  match unmatched c with Some (s, o) => mon16_sent s o | None => true end.
 Definition bad_monitor16 (cs : list pcase) : list N := map p_id (filter (fun c => negb (monitor16 c)) cs).
